@@ -296,8 +296,33 @@ package electreIII
 //@ func distillate
 //@   property C05 C06
 //@   requires [starts_at_the_largest_credibility] !isInner ==> isMax(maxCred, *matrix)
-//@   ensures [positions] result != nil
+//@   ensures [positions] result != nil && fresh(result) && (len(*result) == 0 || fresh(*result))
 //@ func rank
 //@   property C05 C06
 //@   ensures [positions] result != nil
 //@   loop 1 invariant [ctx] fresh(indices)
+
+// ---- distillation bookkeeping (C05, C06)
+//@ func greater
+//@   property C05 C06
+//@   nopanic
+//@   ensures [ascending_pick] result <==> old < new
+//@ func lower
+//@   property C05 C06
+//@   nopanic
+//@   ensures [descending_pick] result <==> old > new
+
+// findBestMatch: the best quality (none is better w.r.t. a strict-weak-order comparator) and exactly the positions holding it
+//@ func findBestMatch
+//@   property C05 C06
+//@   fnparam isBetter pure
+//@   ensures [a_value_of_the_list] exists k int :: 0 <= k && k < len(*values) && result0 == (*values)[k]
+//@   ensures [indices_hold_the_best] result1 != nil && fresh(result1) && forall m int :: 0 <= m && m < len(*result1) ==> 0 <= (*result1)[m] && (*result1)[m] < len(*values) && (*values)[(*result1)[m]] == result0
+//@   ensures [none_is_better] ((forall x int :: !apply(isBetter, x, x)) && (forall x int, y int, z int :: apply(isBetter, x, y) && !apply(isBetter, x, z) ==> !apply(isBetter, y, z)))
+//@             ==> forall k int :: 0 <= k && k < len(*values) ==> !apply(isBetter, result0, (*values)[k])
+//@   loop 1 invariant [a_value] exists k int :: 0 <= k && k < len(*values) && bestValue == (*values)[k]
+//@   loop 1 invariant [indices] fresh(bestIndices)
+//@   loop 1 invariant [indices_hold_the_best] forall m int :: 0 <= m && m < len(bestIndices) ==> 0 <= bestIndices[m] && bestIndices[m] < iter && (*values)[bestIndices[m]] == bestValue
+//@   loop 1 invariant [none_so_far_is_better] ((forall x int :: !apply(isBetter, x, x)) && (forall x int, y int, z int :: apply(isBetter, x, y) && !apply(isBetter, x, z) ==> !apply(isBetter, y, z)))
+//@             ==> forall k int :: 0 <= k && k < iter ==> !apply(isBetter, bestValue, (*values)[k])
+//@   loop 1 invariant [input] unchanged(*values)
